@@ -90,6 +90,37 @@ def regen_consts():
     return True, "ok"
 
 
+CFG = dict(ok=True, detail="")
+CFG_PROPS = ("C06", "C07", "C08", "C09", "C10", "C11", "C12", "C13", "C17")
+
+
+def regen_cfg():
+    """CfgGen.v: the source-level facts behind the LTS configuration (order of the teardown steps,
+    place of connWg.Add, ...) are read off server.go / conn.go on every run; CfgTie.v proves
+    fixed_cfg equal to them.  Same installation rule as for the access table."""
+    path = os.path.join(COQ, "CfgGen.v")
+    rc, out = sh([VH, "cfgflags", "/repo"], timeout=60)
+    if rc != 0 or "gen_wg_last" not in out:
+        CFG.update(ok=False, detail="vh cfgflags failed: " + out[-500:])
+        return
+    old = open(path).read() if os.path.exists(path) else None
+    if old == out:
+        CFG.update(ok=True, detail="flags unchanged; CfgTie.v is part of the build")
+        return
+    trial = os.path.join(WORK, "cfg_try")
+    sh("rm -rf %s && mkdir -p %s" % (trial, trial))
+    sh("cp %s %s/" % (os.path.join(COQ, "CfgTie.v"), trial))
+    open(os.path.join(trial, "CfgGen.v"), "w").write(out)
+    rc, o = sh("timeout 300 coqc -Q %s G -Q . G CfgGen.v && timeout 300 coqc -Q %s G -Q . G CfgTie.v" % (COQ, COQ), cwd=trial, timeout=700)
+    if rc == 0 or old is None:
+        open(path, "w").write(out)
+        CFG.update(ok=True, detail="flags regenerated and installed")
+    else:
+        diff = [l for l in out.splitlines() if l.startswith("Definition") and l not in (old or "")]
+        CFG.update(ok=False, detail="theorem fixed_cfg_is_the_source (coq/CfgTie.v) fails: the source no longer does what the configuration of the lifecycle theorems says; flags read off the source that differ: " + "; ".join(diff) + " | " + o[-300:])
+    sh("rm -rf %s" % trial)
+
+
 ACCESS = dict(ok=True, detail="")
 
 
@@ -236,6 +267,7 @@ def build_all(clean=False):
         if not ok:
             return dict(ok=False, stage="consts", log=log)
         regen_access()
+        regen_cfg()
         ok, log = build_coq(clean)
         if not ok:
             return dict(ok=False, stage="coq", log=log)
@@ -1929,6 +1961,8 @@ def run_check(pid, tier, seed):
         except Exception as e:  # noqa
             broken.append("correspondence run failed: %r" % (e,))
         broken.extend(getattr(res, "broken", []))
+    if pid in CFG_PROPS and not CFG["ok"]:
+        broken.append(CFG["detail"])
     if pid in CONSTS_PROPS and not CONSTS["ok"]:
         broken.append("theorems of coq/Consts.v (the model's constants equal gldap's): " + CONSTS["detail"])
     known = load_known(pid)
